@@ -630,23 +630,44 @@ func (e *Exec) msgFromProto(fv *FuncV, arg Value) Value {
 		case "body":
 			m.F[i] = &OpaqueV{Tag: "protobody", Data: &protoBody{typ: iv.Typ, snap: e.snapshot(sv, 0)}}
 		case "Time":
-			// Time: v.GetTimestamp().AsTime() — the real AsTime on the message's Timestamp field (nil: the epoch)
+			// Time: v.GetTimestamp().AsTime() = time.Unix(seconds, nanos).UTC(), built without forking: for nanos in
+			// [0, 1e9) the wall word is nanos and the ext word seconds + the Unix-to-internal offset; for other
+			// nanos (normalised by a division in the real code) both words are uninterpreted functions of the fields
+			c := e.C
+			wall, ext := c.BVConst(64, 0), c.BVConst(64, 62135596800)
 			for j := 0; j < st.NumFields(); j++ {
 				if st.Field(j).Name() != "Timestamp" {
 					continue
 				}
-				ft := st.Field(j).Type()
-				mset := e.P.SSA.MethodSets.MethodSet(ft)
-				for k := 0; k < mset.Len(); k++ {
-					if mset.At(k).Obj().Name() == "AsTime" {
-						if fn := e.P.SSA.MethodValue(mset.At(k)); fn != nil && len(fn.Blocks) > 0 {
-							if tv := e.callSync(&FuncV{Fn: fn}, []Value{sv.F[j]}); tv != nil {
-								m.F[i] = tv
-							}
-						}
+				tp, ok := sv.F[j].(*Pointer)
+				if !ok || tp.IsNil() {
+					continue
+				}
+				tsv, ok := e.peek(tp).(*StructV)
+				tst, ok2 := tp.Obj.Typ.Underlying().(*types.Struct)
+				if !ok || !ok2 {
+					continue
+				}
+				var sec, nanos *Term
+				for k := 0; k < tst.NumFields(); k++ {
+					switch tst.Field(k).Name() {
+					case "Seconds":
+						sec, _ = tsv.F[k].(*Term)
+					case "Nanos":
+						nanos, _ = tsv.F[k].(*Term)
 					}
 				}
+				if sec == nil || nanos == nil {
+					continue
+				}
+				n64 := c.BVConv(nanos, 64, true)
+				valid := c.And(c.SLE(c.BVConst(64, 0), n64), c.SLT(n64, c.BVConst(64, 1000000000)))
+				uw := c.App("astime.wall!", BV(64), sec, n64)
+				e.AssumeBenign(c.bvcmp("bvult", uw, c.BVConst(64, 1000000000)))
+				wall = c.Ite(valid, n64, uw)
+				ext = c.Ite(valid, c.BVAdd(sec, c.BVConst(64, 62135596800)), c.App("astime.ext!", BV(64), sec, n64))
 			}
+			m.F[i] = e.timeStruct(ms.Field(i).Type(), wall, ext)
 		}
 	}
 	return TupleV{m, &IfaceV{}}
